@@ -279,9 +279,24 @@ def do_replay(prop, path):
         shutil.rmtree(work, ignore_errors=True)
 
 
+class BuildLock(object):
+    """extract / lake build / audit of two checks started at the same time must not interleave (one lean/.lake)"""
+    def __enter__(self):
+        import fcntl
+        self.f = open(os.path.join(LEAN, '.build.lock'), 'w')
+        fcntl.flock(self.f, fcntl.LOCK_EX)
+        return self
+
+    def __exit__(self, *a):
+        import fcntl
+        fcntl.flock(self.f, fcntl.LOCK_UN)
+        self.f.close()
+
+
 def check(prop, tier, seed, info, work, t0):
     notes = []
     # 1-2
+    lock = BuildLock().__enter__()
     b = extract_and_build()
     scan = source_scan()
     theorems = info.get('theorems', [])
@@ -297,6 +312,7 @@ def check(prop, tier, seed, info, work, t0):
             notes.append('leanchecker failed: ' + p.stdout[-500:])
         else:
             notes.append('leanchecker re-checked ' + ' '.join(info.get('modules', ['CDVProofs'])))
+    lock.__exit__()
     # 3
     agg = explore(prop, tier, seed, work) if driver_ok else None
     if agg is None:
